@@ -29,6 +29,7 @@ REQUIRED = {
         'shuffled-array-vs-scalar': 200,
         'integer-levels': 200,
         'narrow-spike-sets': 40,
+        'sets-sharing-knot-positions-with-the-previous-one': 50,
     }
     for tier in ('quick', 'thorough')
 }
@@ -150,8 +151,16 @@ def check_set(ctx, rng, params, nlevels):
 def run(ctx):
     s = SIZES[ctx.tier]
     rng = ctx.rng('T')
-    for _ in range(ctx.share(s['sets'])):
-        check_set(ctx, rng, gen_params.spline_T(rng), s['levels'])
+    for i in range(ctx.share(s['sets'])):
+        params = gen_params.spline_T(rng)
+        check_set(ctx, rng, params, s['levels'])
+        if i % 4 == 0:
+            # another site with the same knot positions but other conductivities / minimum
+            twin = dict(params)
+            twin['K_knots_km_d'] = [k * 10 ** rng.uniform(-2, 2) for k in params['K_knots_km_d']]
+            twin['minimum_transmissivity_m2_d'] = params['minimum_transmissivity_m2_d'] * rng.choice([0.5, 3.0])
+            ctx.rec.hit('sets-sharing-knot-positions-with-the-previous-one')
+            check_set(ctx, rng, twin, s['levels'])
 
 
 def replay(ctx, case, module=None):
